@@ -43,15 +43,25 @@ pub fn real_a0(u: &Unimock, x: u8) -> u64 {
     run_prog(ProgKind::Real(M::A0), x, 0, &mut ref_port(u))
 }
 
-#[unimock(api = BetaMock, unmock_with = [_, real_b1, _, _])]
+#[unimock(api = BetaMock, unmock_with = [_, real_b1, _, _], const K: u64 = 5;)]
 pub trait Beta: HasSnap {
+    /// an associated constant with a default, overridden for the mock through the attribute: default
+    /// bodies must see the mock's value (5), not the trait's
+    const K: u64 = 0;
+
     fn b0(&self, x: u8) -> u64 {
-        run_prog(ProgKind::DefaultBody(M::B0), x, 0, &mut |req| match req {
+        let r = run_prog(ProgKind::DefaultBody(M::B0), x, 0, &mut |req| match req {
             PortReq::Snap => PortResp::Snap(self.snap()),
             PortReq::Call(M::B2, x, y) => PortResp::Val(self.b2(x, y)),
             PortReq::Call(M::B3, x, _) => PortResp::Val(self.b3(x)),
             PortReq::Call(m, ..) => panic!("default body of b0 cannot call {m:?}"),
-        })
+        });
+        // (the result is what the program computed as long as the constant is the configured one)
+        if Self::K == 5 {
+            r
+        } else {
+            r ^ 0xDEAD
+        }
     }
     fn b1(&self, x: u8) -> u64 {
         run_prog(ProgKind::DefaultBody(M::B1), x, 0, &mut |req| match req {
@@ -286,6 +296,17 @@ pub trait GenM: HasSnap {
     }
 }
 
+// a trait mocked without `api=`: its MockFn cannot be named, so no clause can mention its method;
+// only the rules for unmentioned methods ever apply to it
+#[unimock(unmock_with = [real_n0])]
+pub trait NoApi {
+    fn n0(&self, x: u8) -> u64;
+}
+
+pub fn real_n0(u: &Unimock, x: u8) -> u64 {
+    run_prog(ProgKind::Real(M::N0), x, 0, &mut ref_port(u))
+}
+
 // a generic method whose type parameter is not declared: `impl Trait` in argument position
 #[unimock(api = GenIMock)]
 pub trait GenI {
@@ -372,6 +393,7 @@ pub trait Lend {
     fn lent(&self, x: u8) -> &Tracked;
     fn lend_clone(&self, x: u8) -> &Unimock;
     fn lend_z(&self, x: u8) -> &ZTok;
+    fn lend_guard(&self, x: u8) -> &GuardVal;
     /// provided: lends through the default-impl delegation helper
     fn lend_via(&self, x: u8) -> &ValA {
         self.lend_a(x)
@@ -423,6 +445,10 @@ pub fn dispatch_ref(u: &Unimock, m: M, x: u8, y: u8) -> u64 {
         M::S1 => u.s1(x),
         M::S2 => u.s2(x),
         M::D0 => u.d0(DbgArg(x)),
+        M::LendGuard => {
+            let _ = u.lend_guard(x);
+            7
+        }
         M::LendClone => {
             let _ = u.lend_clone(x);
             7
@@ -431,6 +457,7 @@ pub fn dispatch_ref(u: &Unimock, m: M, x: u8, y: u8) -> u64 {
         M::GenU16 => <Unimock as Gen<u16>>::g(u, x as u16),
         M::GmU8 => u.gm::<u8>(x),
         M::GmU16 => u.gm::<u16>(x as u16),
+        M::N0 => u.n0(x),
         M::GiU8 => u.gi(x),
         M::GiU16 => u.gi(x as u16),
         M::GpU8 => u.gp::<u8>(x),
@@ -464,6 +491,7 @@ pub fn direct_real(u: &Unimock, m: M, x: u8, y: u8) -> u64 {
         M::S2 => real_s2(u, x),
         M::Z0 => real_z0(u),
         M::D0 => real_d0(u, DbgArg(x)),
+        M::N0 => real_n0(u, x),
         M::Af => crate::exec::block_on(real_af(u, x)),
         M::At => crate::exec::block_on(real_at(u, x)),
         other => panic!("{other:?} has no real function taking &Unimock"),
@@ -550,6 +578,7 @@ pub fn type_ids() -> &'static Vec<(TypeId, M)> {
             (TypeId::of::<LendMock::lend_mut>(), M::LendMut),
             (TypeId::of::<LendMock::lent>(), M::Lent),
             (TypeId::of::<LendMock::lend_clone>(), M::LendClone),
+            (TypeId::of::<LendMock::lend_guard>(), M::LendGuard),
             (TypeId::of::<LendMock::lend_via>(), M::LendVia),
             (TypeId::of::<LendMock::lend_via_mut>(), M::LendViaMut),
             (TypeId::of::<LendMock::lend_z>(), M::LendZ),
@@ -588,4 +617,19 @@ pub fn m_of_type_id(t: TypeId, trait_ident: &str, method_ident: &str) -> M {
         }
     }
     panic!("unknown MockFn in snapshot: {trait_ident}::{method_ident}");
+}
+
+/// A lent value that owns a clone of the mock that lent it. When it is released (the owner is torn
+/// down) its destructor makes one call through that clone and contains whatever the call raises -
+/// user code running in the middle of the owner's verification.
+pub struct GuardVal {
+    pub clone: Unimock,
+    pub x: u8,
+}
+
+impl Drop for GuardVal {
+    fn drop(&mut self) {
+        let (clone, x) = (&self.clone, self.x);
+        let _ = std::panic::catch_unwind(std::panic::AssertUnwindSafe(|| do_call(M::A1, x & 3, 0, &mut ref_port(clone))));
+    }
 }
